@@ -110,7 +110,7 @@ func (u *Unit) havocRegion(st *State, r *Region, why string) {
 // function objects) .
 func (u *Unit) havocAllPred(a *Term) *Term {
 	r, k := addrRoot(a)
-	if k == 1 && r.K <= -1000000 {
+	if k == 1 && r.K <= -1000000 && r.K > -4500000 {
 		return u.C.False
 	}
 	return u.C.True
@@ -1028,12 +1028,58 @@ func (fr *frame) assignedIn(l *loop, a *ssa.Alloc) bool {
 }
 
 // ---- maps (sequential model) -------------------------------------------------------------------
+// A Go map value is a reference m; the entry for key k lives in ghost cells at
+// cell = Idx(Fld(m, fGhostMap), key(k)): the value at cell (by element type) and a presence flag at
+// Fld(cell, fMapPresent). Keys are abstracted as in mapCell (integers by value, strings/pointers through
+// uninterpreted functions of their representation). Iteration (range) is not modelled.
+
+func (fr *frame) mapCellOf(st *State, m *Term, key Val, kt types.Type) *Term {
+	u := fr.u
+	return u.C.Idx(u.C.Fld(m, fGhostMap), u.keyTerm(st, key, kt))
+}
 
 func (fr *frame) mapInstr(st *State, in ssa.Instruction) {
-	unsupported("map instruction %T", in)
+	u := fr.u
+	c := u.C
+	switch x := in.(type) {
+	case *ssa.MakeMap:
+		a := u.newObj()
+		fr.vals[x] = a
+	case *ssa.Lookup:
+		mt, ok := x.X.Type().Underlying().(*types.Map)
+		if !ok {
+			unsupported("lookup on %s", x.X.Type())
+		}
+		m := fr.term(x.X)
+		cell := fr.mapCellOf(st, m, fr.get(x.Index), mt.Key())
+		present := c.And(c.Ne(m, c.NilA), u.readCell(st, "bool", c.Fld(cell, fMapPresent)))
+		val := u.iteVal(present, u.load(st, cell, mt.Elem()), u.zeroVal(mt.Elem()))
+		if x.CommaOk {
+			fr.vals[x] = TupleV{val, present}
+		} else {
+			fr.vals[x] = val
+		}
+	case *ssa.MapUpdate:
+		mt := x.Map.Type().Underlying().(*types.Map)
+		m := fr.term(x.Map)
+		fr.safety(st, "nil", x.Pos(), "", c.Ne(m, c.NilA))
+		cell := fr.mapCellOf(st, m, fr.get(x.Key), mt.Key())
+		fr.frameCheck(st, cell, mt.Elem(), x.Pos())
+		u.store(st, cell, mt.Elem(), fr.get(x.Value))
+		u.writeCell(st, "bool", c.Fld(cell, fMapPresent), c.True)
+	default:
+		unsupported("map instruction %T", in)
+	}
 }
 
 func (fr *frame) mapDelete(st *State, cc *ssa.CallCommon, args []Val, pos token.Pos) Val {
-	unsupported("delete on map")
+	u := fr.u
+	c := u.C
+	mt := cc.Args[0].Type().Underlying().(*types.Map)
+	m := args[0].(*Term)
+	cell := fr.mapCellOf(st, m, args[1], mt.Key())
+	fr.frameCheck(st, cell, mt.Elem(), pos)
+	// delete on a nil map is a no-op: the flag write is harmless there (lookups test m != nil)
+	u.writeCell(st, "bool", c.Fld(cell, fMapPresent), c.False)
 	return nil
 }
